@@ -87,7 +87,8 @@ pub fn run(tier: Tier) -> i32 {
 
     // ---- locales: plain second locale, target null (explicit default), inheriting locale ------------
     // en (default), fr (own values), de (target null), fr-CA inherits fr (target null)
-    let loc_depth = tier.pick(1, 2);
+    // depth 2 also in the quick tier: a chain through a null target needs it
+    let loc_depth = 2;
     for depth in 1..=loc_depth {
         for rt in tuples(REFS.len(), depth) {
             let refs: Vec<Refk> = rt.iter().map(|i| REFS[*i]).collect();
@@ -182,4 +183,23 @@ pub fn run(tier: Tier) -> i32 {
     cov.insert("outcome_classes".into(), json!(*classes.lock().unwrap()));
     cov.insert("key_locale_comparisons".into(), json!(*keys_total.lock().unwrap()));
     rep.finish(cov, &["a target absent from the same locale's file (implicit default) cannot be referenced (documented): expected Err", "integer literal for float range, count argument to a non-numeric form: statement silent, any non-panic outcome admitted"])
+}
+
+pub fn debug_one() -> i32 {
+    let rep = Reporter::new("C06", "debug", Tier::Quick);
+    let scratch = Scratch::new("c06dbg");
+    let keys_total = Mutex::new(0u64);
+    let mut cfg = Config::simple("en", &["en", "fr", "de", "fr-CA"]);
+    cfg.inherits = vec![("fr-CA".into(), "fr".into())];
+    let mut p = Project::new(cfg);
+    for loc in ["en", "fr"] {
+        p.set_file(None, loc, vec![("a".into(), s(vec![fk("b")])), ("b".into(), s(vec![comp("i", vec![fk("c"), var("z")])])), ("c".into(), st(&format!("[{loc}.c]")))]);
+    }
+    for loc in ["de", "fr-CA"] {
+        p.set_file(None, loc, vec![("a".into(), s(vec![fk("b")])), ("b".into(), Val::Null), ("c".into(), st(&format!("[{loc}.c]")))]);
+    }
+    std::env::set_var("VERIF_DEBUG_KF", "1");
+    let (e, o) = check_project(&rep, "C06", "debug", &p, &scratch.worker(0), &keys_total);
+    eprintln!("expect={e:?} out={}", o.short());
+    rep.finish(serde_json::Map::new(), &[])
 }
